@@ -700,6 +700,7 @@ with enc_composite (fuel : nat) (ps : list param) (v : value) (s : estate) {stru
                     go r (i + 1) s1
                   end) ps 0 s;
       let s1 := set_eop s1 false in
+      let cursor_after_params := e_cur s1 in
       do s2 <- (fix keys (l : list param) (s : estate) : res estate :=
                   match l with
                   | [] => Ok s
@@ -714,7 +715,7 @@ with enc_composite (fuel : nat) (ps : list param) (v : value) (s : estate) {stru
                     end
                   | _ :: r => keys r s
                   end) ps s1;
-      Ok (set_origin s2 orig_origin)
+      Ok (set_origin (set_cur s2 cursor_after_params) orig_origin)
     | _ => Err ERej
     end
   end
@@ -859,7 +860,7 @@ Fixpoint dec_dop (fuel : nat) (d : dop) (s : dstate) {struct fuel} : res (value 
       let orig_origin := d_origin s in
       let s := dset_origin s (d_cur s) in
       do r <- (fix go (k : nat) (s : dstate) (acc : list value) : res (list value * dstate) :=
-                 if blen (d_msg s) =? d_cur s then Ok (rev acc, s) else
+                 if blen (d_msg s) <=? d_cur s then Ok (rev acc, s) else
                  match k with
                  | O => Err EFuel
                  | S k' =>
